@@ -1,18 +1,18 @@
-package checks
+package u
 
 import "strings"
 
 // SigmaR: one representative per lexical class the parser branches on (DESIGN §2.1 level 1).
-var sigmaR = []string{
+var SigmaR = []string{
 	"a", "n", "1", "_", " ", "\t", "\n", ";", "#", "{", "}", "[", "]", ":", ".", "-", ">", "<", "*", "&", "!",
 	"(", ")", "\"", "'", "|", "\\", "$", "@", "`", "é", "世", "😀",
 }
 
 // raw bytes for invalid-UTF-8 / BOM runs
-var sigmaRaw = []string{"\xff", "\xfe", "\x00", "\x80", "\xef\xbb\xbf", "\r"}
+var SigmaRaw = []string{"\xff", "\xfe", "\x00", "\x80", "\xef\xbb\xbf", "\r"}
 
 // SigmaT: token alphabet (DESIGN §2.1 level 2).
-var sigmaT = []string{
+var SigmaT = []string{
 	"a", "B", "\"a b\"", "'q'", "é", "x", "1", ".5", "label", "shape", "style", "opacity", "near", "vars", "classes",
 	"layers", "scenarios", "steps", "class", "link", "icon", "width", "direction", "d2-config", "grid-rows", "source-arrowhead",
 	"|md x|", "||x||", "|`x`|", "->", "<-", "<->", "--", "-*", ":", ".", "{", "}", "[", "]", ";", "\n", " ",
@@ -20,4 +20,4 @@ var sigmaT = []string{
 	"null", "true", "suspend", "unsuspend", "#c", "\"\"\"c\"\"\"", "\\\n", "_", "circle", "sql_table", "top-left", "0.4", "red",
 }
 
-func join(seq []string) string { return strings.Join(seq, "") }
+func Join(seq []string) string { return strings.Join(seq, "") }
